@@ -28,7 +28,19 @@ def main(argv=None):
         return replay(mod, prop, a.replay, seed)
     only = set(a.only.split(",")) if a.only else None
     t0 = time.time()
-    subs, aggs, wall, fatal = core.run_check(mod, a.tier, seed, only=only)
+    phases = getattr(mod, "PHASES", None)
+    if hasattr(mod, "_clean") and not only:
+        mod._clean()
+    if phases and not only:
+        # phases run one after the other (a later phase reads what an earlier one recorded)
+        subs, aggs, fatal = [], {}, []
+        for names in phases:
+            s_, a_, w_, f_ = core.run_check(mod, a.tier, seed, only=set(names))
+            subs += s_
+            aggs.update(a_)
+            fatal += f_
+    else:
+        subs, aggs, wall, fatal = core.run_check(mod, a.tier, seed, only=only)
     known = load_known(prop)
     n_viol = 0
     n_known = 0
